@@ -1,9 +1,23 @@
 #!/bin/bash
-# Runs every seeded change (seeded/*/patch.diff) against the quick check of its own property.
-N=${1:-2}
+# Runs every seeded change (seeded/*/patch.diff) against the quick check of its own property,
+# K of them at a time (scratch areas /tmp/mutwork<base>..<base+K-1>). Changes whose meta.json
+# carries a "status" (neutralised by a later fix) are skipped.
+#   tools/seeded_campaign.sh [K=3] [base=0]   -> one "RESULT <dir> {...}" line per change on stdout
+K=${1:-3}; BASE=${2:-0}
 cd "$(dirname "$0")/.."
-for d in seeded/*/; do
-  pid=$(python3 -c "import json;print(json.load(open('$d/meta.json'))['property'])")
-  echo "=== $d $pid"
-  tools/mutate.py --scratch $N $d/patch.diff $pid 2>&1 | grep -E "RESULT|signature|VACUOUS|INCONCLUSIVE|does not apply" | cut -c1-200
-done
+ls -d seeded/*/ | while read d; do
+  st=$(python3 -c "import json;print(json.load(open('$d/meta.json')).get('status',''))")
+  if [ -n "$st" ]; then echo "SKIP $d ($st)" >&2; continue; fi
+  echo $d
+done > /tmp/seeded_campaign.list
+run_slice() {
+  i=$1
+  awk -v k=$K -v i=$i 'NR % k == i' /tmp/seeded_campaign.list | while read d; do
+    pid=$(python3 -c "import json;print(json.load(open('$d/meta.json'))['property'])")
+    out=$(tools/mutate.py --scratch $((BASE+i)) $d/patch.diff $pid 2>&1 | grep -E "RESULT|signature|VACUOUS|INCONCLUSIVE|does not apply" | cut -c1-200)
+    echo "=== $d $pid"; echo "$out"
+  done
+}
+for i in $(seq 0 $((K-1))); do run_slice $i > /tmp/seeded_campaign.$i.log 2>&1 & done
+wait
+cat /tmp/seeded_campaign.[0-9]*.log
